@@ -1305,6 +1305,18 @@ func (fr *Frame) next(x *ssa.Next) Value {
 func (in *Interp) permuteHere(fr *Frame) bool {
 	name := fr.fn.String()
 	for _, s := range in.permuteSites {
+		// "Caller>Callee": the ranging function matches Callee and some function on the call stack matches Caller
+		if caller, callee, ok := strings.Cut(s, ">"); ok {
+			if !strings.Contains(name, callee) {
+				continue
+			}
+			for _, k := range in.callStack {
+				if strings.Contains(k, caller) {
+					return true
+				}
+			}
+			continue
+		}
 		if strings.Contains(name, s) {
 			return true
 		}
